@@ -117,6 +117,7 @@ where
         return None;
     };
     st.add("sim_bytes_jumped", h.start);
+    st.hit("fault.clock_jumped_and_state_injected");
     let mut g = inject::<K>(&m);
     if let Some(v) = compare::<K>(&g, &m, &SAMPLE_OPTS[..2], fnv, st) {
         return Some(Violation { detail: format!("right after state injection: {}", v.detail), ..v });
